@@ -46,7 +46,8 @@ P = {'id': 'C18',
               'buffered_settle_is_schedule',
               'stage_process_batch_is_map',
               'blob_batch_roundtrip',
-              'store_ops'],
+              'store_ops',
+              'shutdown_refuses'],
  'trusted': ['modelled (M+S): src/concurrency/work_stealing.rs WorkStealingQueue::{push_local, pop_local, steal, balance, len} and '
              'WorkStealingExecutor::{submit, find_task, one worker_loop iteration incl. the periodic balance, total_queued, is_idle} with every queue '
              'operation one atomic step, and (ModelExec.v) the same executor with submit() split into its three critical sections for any number of '
@@ -67,7 +68,7 @@ P = {'id': 'C18',
              'the stages\' own process_batch (trait default of MapStage / FilterStage / BatchMapStage, BatchMapStage with a batch function); '
              'src/concurrency/async_blob_store.rs (ModelStore.v): AsyncMemoryBlobStore::{new, put, get, remove, len, put_batch, get_batch} with '
              'next_id from 1 truncated to the u32 RecordId, the HashMap as an association list; the trait default put_batch / get_batch as the same '
-             'sequence of puts / gets',
+             'sequence of puts / gets; WorkStealingExecutor::shutdown and the shutdown check of submit() (ModelLife.v)',
              'spec-only cells (direct oracle, no mechanism model): the running executor on current-thread and multi-thread tokio runtimes, one queue under '
              'OS threads, BatchCollector with its background timeout checker on two threads; panicking stage functions in process_batch / execute_single '
              '(the panic propagates to the caller); oracle breadth (harness/src/c18_wide*.rs, no mechanism model): the queue / executor cells with '
